@@ -15,7 +15,14 @@ META = {
              "fields are a pure function of the drawn integers. non-trivial "
              "= (>= 2 blocks or block padding present) and a block with "
              "bits >= 1; distinct by the whole case. Two constructed families "
-             "reach 16- and 32-bit blocks."),
+             "reach 16- and 32-bit blocks."
+             ' Also: encoders obtained through get_encoder (full and borde'
+             'r chunks), six memory layouts of the input array, labels at '
+             'the type maximum, near-identical and fingerprint-colliding l'
+             'ookup tables (same length / ends / byte sum / CRC-32); via_d'
+             'ataset: multi-scale datasets with per-scale block sizes writ'
+             'ten through PrecomputedIO; huge_channel: 18 and 84 MiB chann'
+             'els (24-bit table offsets).'),
     "trusted_base": ["vlib/refs/cseg_spec.py decoder/validator written from "
                      "the format description; cross-checked against a "
                      "hand-assembled file at start-up"],
